@@ -393,7 +393,8 @@ class CxxParser:
         tokens: LexTokenList = []
         while True:
             tok = self.lex.token_newline_eof_ok()
-            if not tok or tok.type == "NEWLINE":
+            if not tok or tok.value.endswith("\n"):
+                # end of input, a NEWLINE, or a comment that ends the line
                 break
             if tok.type in self._balanced_token_map:
                 tokens.extend(self._consume_balanced_tokens(tok))
